@@ -14,9 +14,10 @@
 //   * every Some(..) answer implies the textbook `seg_meet`; None only after envelope rejection, a strict same-side
 //     test, or the collinear case analysis answering None.
 // Both functions are specified for NON-DEGENERATE segments (as the K harnesses; zero-length input is covered there).
-// NOT proved: that envelope rejection and the strict same-side test imply `!seg_meet` (two classical facts about
-// crossing segments; decided on the lattice by K harness c11_k_classification_*), anything about the coordinates of
-// a proper point.
+//   * `None` EXACTLY when the segments share no point: the envelope rejection and the strict same-side rejection are
+//     proved sound (crossing segments have intersecting envelopes: the crossing point is computed from either segment
+//     and bounded on each axis; a point of one segment on the other's carrier line puts the ends on opposite sides).
+// NOT proved: anything about the coordinates of a proper point.
 // ASSUMED: bounding_rect of a Line = componentwise min / max, Rect x Rect and Rect x Coord `intersects` (proved in
 // units c19_minmax / c02_intersects), `proper_intersection` (abstract result).
 //@include prelude_scalar.rs
@@ -242,6 +243,136 @@ pub proof fn lemma_collinear_distinct_x(a: P2, b: P2, c: P2, d: P2)
     }
 }
 
+/// one axis of the crossing point: X D = a0 D + (b0 - a0) f = c0 D + (d0 - c0) g with 0 <= f, g <= D: the intervals
+/// [a0, b0] and [c0, d0] overlap
+proof fn lemma_axis(a0: int, b0: int, c0: int, d0: int, f: int, g: int, dd: int)
+    requires dd > 0, 0 <= f <= dd, 0 <= g <= dd, (a0 - c0) * dd + (b0 - a0) * f - (d0 - c0) * g == 0,
+    ensures !(imax(a0, b0) < imin(c0, d0)), !(imin(a0, b0) > imax(c0, d0)),
+{
+    let v = b0 - a0; let pp = d0 - c0;
+    let xd = a0 * dd + v * f;
+    assert((a0 - c0) * dd == a0 * dd - c0 * dd) by (nonlinear_arith);
+    assert(xd == c0 * dd + pp * g);
+    if v >= 0 { assert(0 <= v * f <= v * dd) by (nonlinear_arith) requires 0 <= f <= dd, v >= 0; }
+    else { assert(v * dd <= v * f <= 0) by (nonlinear_arith) requires 0 <= f <= dd, v < 0; }
+    assert(v * dd == b0 * dd - a0 * dd) by (nonlinear_arith) requires v == b0 - a0;
+    if pp >= 0 { assert(0 <= pp * g <= pp * dd) by (nonlinear_arith) requires 0 <= g <= dd, pp >= 0; }
+    else { assert(pp * dd <= pp * g <= 0) by (nonlinear_arith) requires 0 <= g <= dd, pp < 0; }
+    assert(pp * dd == d0 * dd - c0 * dd) by (nonlinear_arith) requires pp == d0 - c0;
+    let (lo1, hi1, lo2, hi2) = (imin(a0, b0), imax(a0, b0), imin(c0, d0), imax(c0, d0));
+    assert(lo1 * dd <= xd <= hi1 * dd);
+    assert(lo2 * dd <= xd <= hi2 * dd);
+    if hi1 < lo2 { assert(hi1 * dd < lo2 * dd) by (nonlinear_arith) requires hi1 < lo2, dd > 0; }
+    if lo1 > hi2 { assert(lo1 * dd > hi2 * dd) by (nonlinear_arith) requires lo1 > hi2, dd > 0; }
+}
+/// -u (Q v - P w) + v (Q u - P s) + P (v s - u w) == 0   (the crossing point computed from either segment is the same)
+proof fn lemma_same_point(u: int, v: int, w: int, s: int, p: int, q: int)
+    ensures -(u * (q * v - p * w)) + v * (q * u - p * s) + p * (v * s - u * w) == 0
+{
+    lemma_degree3(u, v, w, s, p, q);
+}
+/// two segments each of which has its ends STRICTLY on opposite sides of the other: their envelopes intersect
+pub proof fn lemma_proper_cross_boxes(a: P2, b: P2, c: P2, d: P2)
+    requires
+        (cross(c, d, a) < 0 && 0 < cross(c, d, b)) || (cross(c, d, b) < 0 && 0 < cross(c, d, a)),
+        (cross(a, b, c) < 0 && 0 < cross(a, b, d)) || (cross(a, b, d) < 0 && 0 < cross(a, b, c)),
+    ensures !boxes_disjoint(a, b, c, d)
+{
+    let (fa, fb, gc, gd) = (cross(c, d, a), cross(c, d, b), cross(a, b, c), cross(a, b, d));
+    let (u, s) = (c.x - a.x, c.y - a.y);
+    let (v, w) = (b.x - a.x, b.y - a.y);
+    let (p, q) = (d.x - c.x, d.y - c.y);
+    lemma_four_crosses(a, b, c, d);          // gd - gc == fa - fb
+    lemma_cross_offsets(c, d, a);            // fa == q u - p s
+    lemma_cross_offsets(c, d, b);
+    assert(fb == q * (u - v) - p * (s - w));
+    assert(fa - fb == q * v - p * w) by (nonlinear_arith) requires fa == q * u - p * s, fb == q * (u - v) - p * (s - w);
+    assert(gc == v * s - u * w) by (nonlinear_arith) requires gc == v * ((s - w)) - w * ((u - v));
+    lemma_same_point(u, v, w, s, p, q);      // -u D + v fa + p gc == 0
+    lemma_same_point(s, w, v, u, q, p);      // -s (P w - Q v) + w (P s - Q u) + Q (w u - s v) == 0
+    let dd = fa - fb;
+    // x axis: (a.x - c.x) D + v fa - p (-gc) == 0
+    assert((a.x - c.x) * dd + v * fa - p * (-gc) == 0) by (nonlinear_arith)
+        requires -(u * (q * v - p * w)) + v * (q * u - p * s) + p * (v * s - u * w) == 0, dd == q * v - p * w, fa == q * u - p * s, gc == v * s - u * w, u == c.x - a.x;
+    // y axis: (a.y - c.y) D + w fa - q (-gc) == 0
+    assert((a.y - c.y) * dd + w * fa - q * (-gc) == 0) by (nonlinear_arith)
+        requires -(s * (p * w - q * v)) + w * (p * s - q * u) + q * (w * u - s * v) == 0, dd == q * v - p * w, fa == q * u - p * s, gc == v * s - u * w, s == c.y - a.y;
+    if dd > 0 {
+        lemma_axis(a.x, b.x, c.x, d.x, fa, -gc, dd);
+        lemma_axis(a.y, b.y, c.y, d.y, fa, -gc, dd);
+    } else {
+        assert((a.x - c.x) * (-dd) + v * (-fa) - p * gc == 0) by (nonlinear_arith) requires (a.x - c.x) * dd + v * fa - p * (-gc) == 0;
+        assert((a.y - c.y) * (-dd) + w * (-fa) - q * gc == 0) by (nonlinear_arith) requires (a.y - c.y) * dd + w * fa - q * (-gc) == 0;
+        lemma_axis(a.x, b.x, c.x, d.x, -fa, gc, -dd);
+        lemma_axis(a.y, b.y, c.y, d.y, -fa, gc, -dd);
+    }
+}
+/// a point of segment cd that lies on the carrier line of ab puts c and d on opposite closed sides of that line:
+/// so if c and d are STRICTLY on one side of ab, no point of cd -- in particular neither a nor b -- is on cd... (used
+/// through its contrapositive below)
+pub proof fn lemma_on_segment_opposite_sides(a: P2, b: P2, c: P2, d: P2)
+    requires on_segment(a, c, d), c != d,
+    ensures !same_strict_side(cross(a, b, c), cross(a, b, d))
+{
+    let (gc, gd) = (cross(a, b, c), cross(a, b, d));
+    if same_strict_side(gc, gd) {
+        // a is on line cd; by lemma_crossing_point_on_segment's identity with the roles (a,b,c,d) -> (c,d,a,b):
+        //   (a.x - c.x) (gc' - gd') == (d.x - c.x) gc'   where g' = cross(a, b, .) evaluated at c, d
+        let (u, s) = (a.x - c.x, a.y - c.y);
+        let (v, w) = (d.x - c.x, d.y - c.y);
+        let (p, q) = (b.x - a.x, b.y - a.y);
+        lemma_cross_offsets(a, b, c);
+        lemma_cross_offsets(a, b, d);
+        assert(gc == q * u - p * s);
+        assert(gd == q * (u - v) - p * (s - w));
+        assert(gc - gd == q * v - p * w) by (nonlinear_arith) requires gc == q * u - p * s, gd == q * (u - v) - p * (s - w);
+        assert(cross(c, d, a) == v * s - u * w) by (nonlinear_arith) requires cross(c, d, a) == v * ((s - w)) - w * ((u - v));
+        lemma_degree3(u, v, w, s, p, q);
+        assert(p * (v * s - u * w) == 0) by (nonlinear_arith) requires v * s - u * w == 0;
+        assert(u * (gc - gd) == v * gc);
+        lemma_degree3(s, w, v, u, q, p);
+        assert(q * (w * u - s * v) == 0) by (nonlinear_arith) requires v * s - u * w == 0;
+        assert(s * (p * w - q * v) == w * (p * s - q * u));
+        assert(s * (gc - gd) == w * gc) by (nonlinear_arith) requires s * (p * w - q * v) == w * (p * s - q * u), gc - gd == q * v - p * w, gc == q * u - p * s;
+        // (u - v) gc == u gd with u between 0 and v, gc and gd of one strict sign: u == 0 and u == v, so v == 0
+        assert((u - v) * gc == u * gd) by (nonlinear_arith) requires u * (gc - gd) == v * gc;
+        assert((s - w) * gc == s * gd) by (nonlinear_arith) requires s * (gc - gd) == w * gc;
+        assert(v == 0) by (nonlinear_arith)
+            requires (u - v) * gc == u * gd, (0 <= u <= v) || (v <= u <= 0), (gc > 0 && gd > 0) || (gc < 0 && gd < 0);
+        assert(w == 0) by (nonlinear_arith)
+            requires (s - w) * gc == s * gd, (0 <= s <= w) || (w <= s <= 0), (gc > 0 && gd > 0) || (gc < 0 && gd < 0);
+        assert(false);
+    }
+}
+/// the two rejections of `line_intersection` are sound: disjoint envelopes, or both ends of one segment strictly on one
+/// side of the other, mean the segments share no point (textbook test)
+pub proof fn lemma_rejections_sound(a: P2, b: P2, c: P2, d: P2)
+    requires a != b, c != d,
+    ensures
+        boxes_disjoint(a, b, c, d) ==> !seg_meet(a, b, c, d),
+        same_strict_side(cross(a, b, c), cross(a, b, d)) ==> !seg_meet(a, b, c, d),
+        same_strict_side(cross(c, d, a), cross(c, d, b)) ==> !seg_meet(a, b, c, d),
+{
+    let (fa, fb, gc, gd) = (cross(c, d, a), cross(c, d, b), cross(a, b, c), cross(a, b, d));
+    lemma_four_crosses(a, b, c, d);
+    if same_strict_side(gc, gd) {
+        if on_segment(a, c, d) { lemma_on_segment_opposite_sides(a, b, c, d); }
+        if on_segment(b, c, d) { lemma_flip(a, b, c); lemma_flip(a, b, d); lemma_on_segment_opposite_sides(b, a, c, d); }
+    }
+    if same_strict_side(fa, fb) {
+        if on_segment(c, a, b) { lemma_on_segment_opposite_sides(c, d, a, b); }
+        if on_segment(d, a, b) { lemma_flip(c, d, a); lemma_flip(c, d, b); lemma_on_segment_opposite_sides(d, c, a, b); }
+    }
+    if boxes_disjoint(a, b, c, d) && seg_meet(a, b, c, d) {
+        // an end point on the other segment is in both envelopes (linear); otherwise the orientations differ both ways
+        if !(on_segment(c, a, b) || on_segment(d, a, b) || on_segment(a, c, d) || on_segment(b, c, d)) {
+            if !(gc == 0 && gd == 0 && fa == 0 && fb == 0) { lemma_touching(a, b, c, d); }
+            // no orientation vanishes now: strict crossing
+            lemma_proper_cross_boxes(a, b, c, d);
+        }
+    }
+}
+
 /// textbook test: the closed segments [a,b] and [c,d] share a point (as the K oracle spec::seg_meet)
 pub open spec fn seg_meet(a: P2, b: P2, c: P2, d: P2) -> bool {
     (orient_spec(a, b, c) != orient_spec(a, b, d) && orient_spec(c, d, a) != orient_spec(c, d, b))
@@ -334,6 +465,8 @@ impl<F: GeoFloat> LineIntersection<F> {
         ({
             let (a, b, c, d) = (pt(p.start), pt(p.end), pt(q.start), pt(q.end));
             let all_collinear = cross(a, b, c) == 0 && cross(a, b, d) == 0 && cross(c, d, a) == 0 && cross(c, d, b) == 0;
+            // None EXACTLY when the segments share no point (textbook test; the two rejections are proved sound below)
+            &&& (r is None) == !seg_meet(a, b, c, d)
             // None only after: envelope rejection, both ends of one segment strictly on one side of the other, or the collinear analysis
             &&& (r is None ==> boxes_disjoint(a, b, c, d) || same_strict_side(cross(a, b, c), cross(a, b, d)) || same_strict_side(cross(c, d, a), cross(c, d, b))
                                || (all_collinear && collinear_none(a, b, c, d)))
@@ -359,6 +492,7 @@ impl<F: GeoFloat> LineIntersection<F> {
         F::ax_obeys(); F::ax_order();
         let (a, b, c, d) = (pt(p.start), pt(p.end), pt(q.start), pt(q.end));
         lemma_ends_on_segment(a, b); lemma_ends_on_segment(c, d);
+        lemma_rejections_sound(a, b, c, d);
         if !same_strict_side(cross(a, b, c), cross(a, b, d)) && !same_strict_side(cross(c, d, a), cross(c, d, b))
             && !(cross(a, b, c) == 0 && cross(a, b, d) == 0 && cross(c, d, a) == 0 && cross(c, d, b) == 0) {
             lemma_touching(a, b, c, d);
